@@ -520,6 +520,29 @@ theorem foldl_congr_mem {α β : Type} {f g : β → α → β} : ∀ (S : List 
 
 /-! ## the theorem -/
 
+/-- the structured form: any admissible arrangement `S` of the structured emission, rendered and
+    applied to the right document, gives the left document's flattened view -/
+theorem apply_struct_flatten (L R : AMap Node) (hL : (Node.cont L).Valid) (hR : (Node.cont R).Valid)
+    (hsL : (Node.cont L).SafeKeys) (hsR : (Node.cont R).SafeKeys) (hc : Compat (.cont L) (.cont R))
+    (hi : (Node.cont L).ItemsHaveScalars) (S : List M) (hS : S.Perm (emitM (.cont L) (.cont R))) (hord : Ord S) :
+    flatten (apply R (S.map (renderM ""))) = flatten L := by
+  have hsafe : ∀ m ∈ S, m.Safe := fun m hm => safe_emitM _ _ hsL hsR m (hS.mem_iff.mp hm)
+  have hkeyed : ∀ m ∈ S, m.Keyed := by
+    intro m hm
+    have := hS.mem_iff.mp hm
+    simp only [emitM, List.mem_append] at this
+    rcases this with h | h
+    · exact keyed_emitLeftM _ _ m h
+    · exact keyed_emitRightM _ _ m h
+  have happly : apply R (S.map (renderM "")) = S.foldl (fun c m => actK m c) R := by
+    rw [apply, List.foldl_map]
+    exact foldl_congr_mem S R (fun m hm c => applySingle_renderM (hkeyed m hm) (hsafe m hm) c)
+  have := recon (.cont L) (.cont R) hL hR hi hc S hS hord ""
+  rw [foldl_act_keyed S R hkeyed] at this
+  simp only [flatO, flattenNode] at this
+  rw [happly]
+  exact this
+
 /-- the general form: ANY path-sorted arrangement of what Diff emits (whatever the sorting
     algorithm, stable or not, and whatever the emission order was) reconstructs the left
     document's flattened view when applied to the right document -/
@@ -531,22 +554,9 @@ theorem apply_sorted_perm_flatten (L R : AMap Node) (hL : (Node.cont L).Valid) (
   have hperm : ms.Perm ((emitM (.cont L) (.cont R)).map (renderM "")) := hemit ▸ hms
   obtain ⟨S, hS, hSm⟩ := exists_perm_map (renderM "") hperm _ rfl
   have hsafe : ∀ m ∈ S, m.Safe := fun m hm => safe_emitM _ _ hsL hsR m (hS.mem_iff.mp hm)
-  have hkeyed : ∀ m ∈ S, m.Keyed := by
-    intro m hm
-    have := hS.mem_iff.mp hm
-    simp only [emitM, List.mem_append] at this
-    rcases this with h | h
-    · exact keyed_emitLeftM _ _ m h
-    · exact keyed_emitRightM _ _ m h
   have hord : Ord S := ord_of_sorted hsafe (by rw [hSm]; exact hsorted)
-  have happly : apply R ms = S.foldl (fun c m => actK m c) R := by
-    rw [← hSm, apply, List.foldl_map]
-    exact foldl_congr_mem S R (fun m hm c => applySingle_renderM (hkeyed m hm) (hsafe m hm) c)
-  have := recon (.cont L) (.cont R) hL hR hi hc S hS hord ""
-  rw [foldl_act_keyed S R hkeyed] at this
-  simp only [flatO, flattenNode] at this
-  rw [happly]
-  exact this
+  rw [← hSm]
+  exact apply_struct_flatten L R hL hR hsL hsR hc hi S hS hord
 
 /-- **apply_diff_flatten**: for compatible documents over path-safe keys, every list item of the
     left one holding a scalar, applying the diff to the right document gives the left one's
@@ -555,5 +565,137 @@ theorem apply_diff_flatten_core (L R : AMap Node) (hL : (Node.cont L).Valid) (hR
     (hsL : (Node.cont L).SafeKeys) (hsR : (Node.cont R).SafeKeys) (hc : Compat (.cont L) (.cont R))
     (hi : (Node.cont L).ItemsHaveScalars) : flatten (apply R (diff L R)) = flatten L :=
   apply_sorted_perm_flatten L R hL hR hsL hsR hc hi _ (sortMods_perm _) (sortMods_sorted _)
+
+/-! ## the emission order itself is admissible (sorting is not needed for reconstruction) -/
+
+def M.key? : M → Option String
+  | .a (.key k _) => some k
+  | .d (k :: _) => some k
+  | _ => none
+
+theorem key?_push (k : String) (m : M) : (M.push k m).key? = some k := by cases m <;> rfl
+
+theorem ordR_of_key_ne {m1 m2 : M} {k1 k2 : String} (h1 : m1.key? = some k1) (h2 : m2.key? = some k2)
+    (hne : k1 ≠ k2) : OrdR m1 m2 := by
+  cases m1 with
+  | d _ => simp [OrdR]
+  | a p =>
+    cases m2 with
+    | a _ => simp [OrdR]
+    | d ks =>
+      cases p with
+      | leaf _ => simp [M.key?] at h1
+      | idx _ _ => simp [M.key?] at h1
+      | key k p' =>
+        cases ks with
+        | nil => simp [M.key?] at h2
+        | cons k' ks' =>
+          simp only [M.key?, Option.some.injEq] at h1 h2
+          simp only [OrdR, Above]
+          intro h
+          exact hne (by rw [← h1, ← h2]; exact h.1.symm)
+
+theorem ordR_push {m1 m2 : M} (k : String) (h : OrdR m1 m2) : OrdR (M.push k m1) (M.push k m2) := by
+  cases m1 with
+  | d _ => simp [OrdR, M.push]
+  | a p =>
+    cases m2 with
+    | a _ => simp [OrdR, M.push]
+    | d ks =>
+      simp only [OrdR, M.push, Above] at h ⊢
+      intro h'
+      exact h h'.2
+
+theorem ord_adds (T : List AP) (f : AP → AP) : Ord (T.map (fun p => M.a (f p))) := by
+  unfold Ord
+  rw [List.pairwise_map]
+  exact List.pairwise_of_forall (fun _ _ => by simp [OrdR])
+
+theorem mem_emitLeftM_key : ∀ (xs : List (String × Node)) (r : AMap Node) (m : M), m ∈ emitLeftM xs r →
+    ∃ e ∈ xs, m.key? = some e.1
+  | [], _, _, h => by cases h
+  | (k, n) :: rest, r, m, h => by
+    simp only [emitLeftM, List.mem_append] at h
+    rcases h with h | h
+    · refine ⟨(k, n), List.mem_cons_self .., ?_⟩
+      split at h
+      · obtain ⟨m', _, rfl⟩ := List.mem_map.mp h
+        exact key?_push k m'
+      · obtain ⟨p, _, rfl⟩ := List.mem_map.mp h
+        rfl
+    · obtain ⟨e, he, hk⟩ := mem_emitLeftM_key rest r m h
+      exact ⟨e, List.mem_cons_of_mem _ he, hk⟩
+
+theorem mem_emitRightM_key : ∀ (ys : List (String × Node)) (l : AMap Node) (m : M), m ∈ emitRightM ys l →
+    ∃ e ∈ ys, m = .d [e.1] ∧ AMap.get? l e.1 = none
+  | [], _, _, h => by cases h
+  | (k, n) :: rest, l, m, h => by
+    simp only [emitRightM, List.mem_append] at h
+    rcases h with h | h
+    · split at h
+      · cases h
+      · rename_i hg
+        simp only [List.mem_singleton] at h
+        exact ⟨(k, n), List.mem_cons_self .., h, hg⟩
+    · obtain ⟨e, he, hk⟩ := mem_emitRightM_key rest l m h
+      exact ⟨e, List.mem_cons_of_mem _ he, hk⟩
+
+mutual
+theorem ord_emitM : ∀ (x y : Node), x.WF → Ord (emitM x y)
+  | .leaf _, _, _ => by simp [emitM, Ord]
+  | .list xs, y, _ => by
+    cases y with
+    | list ys =>
+      simp only [emitM]
+      split
+      · exact List.Pairwise.nil
+      · exact List.pairwise_cons.mpr ⟨fun _ _ => by simp [OrdR], ord_adds (relList xs 0) id⟩
+    | leaf _ => simp [emitM, Ord]
+    | cont _ => simp [emitM, Ord]
+  | .cont l, y, hw => by
+    cases y with
+    | cont r =>
+      simp only [emitM]
+      refine List.pairwise_append.mpr ⟨ord_emitLeftM l r hw.sorted (fun e he => hw.of_cont_get (AMap.get?_of_mem hw.sorted he)), ?_, ?_⟩
+      · apply List.pairwise_of_forall_mem_list
+        intro a ha b _
+        obtain ⟨e, _, rfl, _⟩ := mem_emitRightM_key r l a ha
+        simp [OrdR]
+      · intro a ha b hb
+        obtain ⟨e, he, hk⟩ := mem_emitLeftM_key l r a ha
+        obtain ⟨e', _, rfl, hnone⟩ := mem_emitRightM_key r l b hb
+        refine ordR_of_key_ne hk rfl ?_
+        intro heq
+        rw [← heq, AMap.get?_of_mem hw.sorted (show (e.1, e.2) ∈ l from he)] at hnone
+        cases hnone
+    | leaf _ => simp [emitM, Ord]
+    | list _ => simp [emitM, Ord]
+theorem ord_emitLeftM : ∀ (xs : List (String × Node)) (r : AMap Node), AMap.Sorted xs → (∀ e ∈ xs, e.2.WF) →
+    Ord (emitLeftM xs r)
+  | [], _, _, _ => List.Pairwise.nil
+  | (k, n) :: rest, r, hs, hw => by
+    simp only [emitLeftM]
+    refine List.pairwise_append.mpr ⟨?_, ord_emitLeftM rest r hs.tail (fun e he => hw e (List.mem_cons_of_mem _ he)), ?_⟩
+    · split
+      · exact (ord_emitM n _ (hw (k, n) (List.mem_cons_self ..))).map (M.push k) (fun _ _ h => ordR_push k h)
+      · exact ord_adds (rel n) (AP.key k)
+    · intro a ha b hb
+      have hka : a.key? = some k := by
+        split at ha
+        · obtain ⟨m', _, rfl⟩ := List.mem_map.mp ha
+          exact key?_push k m'
+        · obtain ⟨p, _, rfl⟩ := List.mem_map.mp ha
+          rfl
+      obtain ⟨e, he, hkb⟩ := mem_emitLeftM_key rest r b hb
+      exact ordR_of_key_ne hka hkb (String.ne_of_lt (hs.head_lt e he))
+end
+
+/-- applying the modifications in EMISSION order (no sorting) also reconstructs the left document -/
+theorem apply_emit_flatten_core (L R : AMap Node) (hL : (Node.cont L).Valid) (hR : (Node.cont R).Valid)
+    (hsL : (Node.cont L).SafeKeys) (hsR : (Node.cont R).SafeKeys) (hc : Compat (.cont L) (.cont R))
+    (hi : (Node.cont L).ItemsHaveScalars) : flatten (apply R (emit L R)) = flatten L := by
+  have hemit : emit L R = (emitM (.cont L) (.cont R)).map (renderM "") := emitNode_M _ _ "" hL hR hc
+  rw [hemit]
+  exact apply_struct_flatten L R hL hR hsL hsR hc hi _ (.refl _) (ord_emitM _ _ hL.1)
 
 end Ytk
